@@ -23,6 +23,7 @@ import (
 	"github.com/XiaoMi/Gaea/log"
 	"github.com/XiaoMi/Gaea/mysql"
 	"github.com/XiaoMi/Gaea/parser/ast"
+	types "github.com/XiaoMi/Gaea/parser/tidb-types"
 	driver "github.com/XiaoMi/Gaea/parser/tidb-types/parser_driver"
 	"github.com/XiaoMi/Gaea/proxy/router"
 	"github.com/XiaoMi/Gaea/proxy/sequence"
@@ -282,6 +283,27 @@ func removeSchemaAndTableInfoInColumnName(column *ast.ColumnName) {
 	column.Table.L = ""
 }
 
+// getInsertShardingValue returns the value of a sharding literal that the rule is
+// asked to place. Only integer and string literals are values the proxy can
+// place: of a hexadecimal, bit, decimal or float literal GetValueExprResult gives
+// the SQL text (x'10', 1.50) or a float64, which is not the value the column will
+// hold (16, 1.5), so the row would be stored where no query on that value looks.
+func getInsertShardingValue(x *driver.ValueExpr) (interface{}, error) {
+	switch x.Kind() {
+	case types.KindNull, types.KindInt64, types.KindUint64, types.KindString, types.KindBytes:
+	default:
+		return nil, fmt.Errorf("sharding value must be an integer or a string")
+	}
+	v, err := util.GetValueExprResult(x)
+	if err != nil {
+		return nil, fmt.Errorf("get value expr result failed, %v", err)
+	}
+	if v == nil {
+		return nil, fmt.Errorf("sharding value cannot be null")
+	}
+	return v, nil
+}
+
 // TODO: refactor
 func handleInsertValues(p *InsertPlan) error {
 	// assignment mode
@@ -289,12 +311,9 @@ func handleInsertValues(p *InsertPlan) error {
 		valueItem := p.stmt.Setlist[p.shardingColumnIndex].Expr
 		switch x := valueItem.(type) {
 		case *driver.ValueExpr:
-			v, err := util.GetValueExprResult(x)
+			v, err := getInsertShardingValue(x)
 			if err != nil {
-				return fmt.Errorf("get value expr result failed, %v", err)
-			}
-			if v == nil {
-				return fmt.Errorf("sharding value cannot be null")
+				return err
 			}
 			routeIdx, err := p.tableRules[p.table].FindTableIndex(v)
 			if err != nil {
@@ -316,12 +335,9 @@ func handleInsertValues(p *InsertPlan) error {
 		valueItem := valueList[p.shardingColumnIndex]
 		switch x := valueItem.(type) {
 		case *driver.ValueExpr:
-			v, err := util.GetValueExprResult(x)
+			v, err := getInsertShardingValue(x)
 			if err != nil {
-				return fmt.Errorf("get value expr result failed, %v", err)
-			}
-			if v == nil {
-				return fmt.Errorf("sharding value cannot be null")
+				return err
 			}
 			routeIdx, err := p.tableRules[p.table].FindTableIndex(v)
 			if newStmt, ok := newStmtMap[routeIdx]; ok {
